@@ -622,6 +622,7 @@ func c10(r *ev.Run) {
 			for i := shard * st; i < n; i += shards * st {
 				curOp, curIdx = d.name, i
 				irt.Heartbeat.Add(1)
+				childBeat()
 				args, bad, ran := c10Run(d, i)
 				if !ran {
 					continue
@@ -655,8 +656,12 @@ func c10(r *ev.Run) {
 		go func(s int) {
 			defer wg.Done()
 			cmd := exec.Command("/bin/sh", "-c", "ulimit -v 8000000; exec \"$0\" C10", self)
-			cmd.Env = append(os.Environ(), fmt.Sprintf("VERIF_CHILD=%d/%d", s, shards), "GOMAXPROCS=2")
+			bm := beatMarker(s)
+			cmd.Env = append(os.Environ(), fmt.Sprintf("VERIF_CHILD=%d/%d", s, shards), "GOMAXPROCS=2", "VERIF_BEAT="+bm)
+			stopBeat := make(chan struct{})
+			go superviseBeat(bm, r.Beat, stopBeat)
 			outp, err := cmd.Output()
+			close(stopBeat)
 			got := false
 			sc := bufio.NewScanner(strings.NewReader(string(outp)))
 			sc.Buffer(make([]byte, 1<<20), 1<<26)
